@@ -310,9 +310,10 @@ func (conn *Conn) recv() {
 	if conn.readSched != nil {
 		conn.readSched.Close()
 	}
-	if conn.writeSched != nil {
-		conn.writeSched.Close()
-	}
+	// The write queue is not closed here: callers may still be scheduling
+	// sends on it concurrently (they fail fast now that the connection is
+	// shut down), and closing a scheduler that is still being scheduled on
+	// panics in its wait group. Its worker exits by itself when idle.
 	if conn.readStream != nil {
 		conn.readStream.Close()
 	}
